@@ -153,7 +153,7 @@ def generate(unit_dir, mustfail=False, mutate=None, variant=None, template='unit
             rel, qual = words[1], words[2]
             o = parse_opts(words[3:])
             spec = dict(rules=set(o.get('rules', '').split(',')) - {''}, loops={}, loopbody={}, afterloop={},
-                        closures={}, afterclosure={}, macros={}, aliases={})
+                        closures={}, afterclosure={}, macros={}, aliases={}, before={})
             if o.get('rename'):
                 spec['rename'] = o['rename']
             if o.get('retname'):
@@ -203,6 +203,8 @@ def generate(unit_dir, mustfail=False, mutate=None, variant=None, template='unit
                     spec['closures'][int(hdr[1])] = ' '.join(x.strip() for x in body if x.strip())
                 elif k == 'afterclosure':
                     spec['afterclosure'][int(hdr[1])] = txt
+                elif k == 'before':
+                    spec['before'][(hdr[1], int(hdr[2]))] = txt
                 elif k == 'alias':
                     spec['aliases'][hdr[1]] = hdr[2]
                     spec['rules'].add('R8')
@@ -214,20 +216,22 @@ def generate(unit_dir, mustfail=False, mutate=None, variant=None, template='unit
             a, kw, bo, bc = rf.find_fn(qual)
             raw = rf.text[a:bc + 1]
             rec = FnRec()
-            rec.qual, rec.file, rec.raw = qual, rel, raw
+            rec.qual, rec.file, rec.raw = o.get('name', qual), rel, raw
+            rec.src_qual = qual
+            rname = rec.qual
             rec.sha = hashlib.sha256(raw.encode()).hexdigest()[:16]
             rec.rules = sorted(spec['rules'] | {'R1', 'R2'})
             rec.has_contract = bool((spec.get('sig') or '').strip())
             rec.mustfail = not o.get('nomustfail')
             g.rules_used |= set(rec.rules)
             src = raw
-            if mutate and mutate[0] == qual:
+            if mutate and mutate[0] in (qual, rname):
                 cnt = src.count(mutate[1])
                 if cnt != 1:
                     raise ExtractError('mutant: %r occurs %d times in %s' % (mutate[1], cnt, qual))
                 src = src.replace(mutate[1], mutate[2])
                 mutated = True
-            if mustfail and rec.mustfail and (mustfail is True or qual in mustfail):
+            if mustfail and rec.mustfail and (mustfail is True or rname in mustfail):
                 spec['sig'] = add_ensures_false(spec.get('sig') or '')
             if plain:
                 spec = dict(rules=spec['rules'] & {'R3'}, plain=True, rename=spec.get('rename'))
@@ -238,7 +242,7 @@ def generate(unit_dir, mustfail=False, mutate=None, variant=None, template='unit
             if o.get('attr'):
                 txt = '#[%s]\n' % o['attr'] + txt
             indent = line[:len(line) - len(line.lstrip())]
-            for st in (auto_stubs or {}).get(qual, []):
+            for st in (auto_stubs or {}).get(rname, []):
                 if st['kind'] in ('free', 'method'):
                     stxt = stub_text(st, plain)
                     out.extend((indent + l if l.strip() else l) for l in stxt.split('\n'))
